@@ -179,8 +179,9 @@ def check_c07(prop, tier, seed):
     scratch = common.scratch('c07_')
     try:
         model_check_bounds(rep, tier, scratch)
-        depth = 2 if tier == 'quick' else 4
-        run_walks(rep, prop, union_jobs(seed + 50, tier, depth, ops=['SplitT', 'SplitF', 'Trim', 'Sample']),
+        # depth 4 so that  split, sample, trim, sample  (stale proposals after a trim) is among the sequences
+        depth = 4 if tier == 'quick' else 5
+        run_walks(rep, prop, union_jobs(seed + 50, tier, depth, ops=['SplitT', 'Trim', 'Sample']),
                   object_specs(seed, tier), scratch)
         rep.assumptions += ['the oracle is the bound\'s own contains(): the property relates sample(), compute() and contains()',
                             'point sets sampled from seeded families (dimensions 1-8)']
